@@ -306,6 +306,8 @@ class Effects(object):
                                 detail.append((i, 'store', o[1]))
                         elif o[0] == 'g' or (o[0] == 'gd' and not self.m.globals.get(o[1], {}).get('decl', True)):
                             res['stores'].add(('G', o[1]))
+                            if want_detail:
+                                detail.append((i, 'gstore', ('G', o[1])))
                         if is_ptr(i.d.get('sty', '')):
                             s = set(pv(val))
                             addc(o, s)
@@ -327,6 +329,8 @@ class Effects(object):
                                             detail.append((i, 'call ' + self.m.dem(t)[:90], o[1]))
                                     elif o[0] == 'g' or (o[0] == 'gd' and not self.m.globals.get(o[1], {}).get('decl', True)):
                                         res['stores'].add(('G', o[1]))
+                                        if want_detail:
+                                            detail.append((i, 'gcall ' + self.m.dem(t)[:90], ('G', o[1])))
                         for j in cs['reads']:
                             if j < len(args):
                                 for o in pv(args[j]):
@@ -388,6 +392,12 @@ class Effects(object):
         f = self.m.func(name)
         res, detail, prov = self.analyse(f, want_detail=True)
         return [(i, kind) for (i, kind, p) in detail if p == param and not (kind == 'load' or kind.startswith('rcall '))]
+
+    def global_store_sites(self, name):
+        """[(instruction, kind, global name)] for the stores / writing calls of `name` that target a global."""
+        f = self.m.func(name)
+        res, detail, prov = self.analyse(f, want_detail=True)
+        return [(i, kind, p[1]) for (i, kind, p) in detail if isinstance(p, tuple) and p[0] == 'G']
 
     def events(self, name):
         """Per-instruction effect events of a function: list of (inst, kind, param) in block order,
